@@ -5,6 +5,9 @@ VERIF = os.path.dirname(os.path.dirname(os.path.abspath(__file__)))
 
 # id -> (category, technique, text, note, design_ref)
 CHECKS = {
+    'C08': ('exploration', 'round-trip monitoring of the real NLModel/NLSolver code against an independent matrix-level oracle (exact dyadic arithmetic), under ASan',
+            'Random LP/QP/MILP/MIQP matrix models incl. all Hessian entry shapes are written through NLModel::WriteNL / NLSolver::LoadModel, read back into mp::Problem and the recording handler and compared in the caller\'s variable order through the reported permutation (bounds, integrality by NL position, objective and row values at 24 points, warm starts, suffixes, names); a .sol with distinct values per NL position is returned through ReadSolution/Solve and must come back un-permuted with the recomputed objective value.',
+            'quadratic part defined as 0.5*sum of given entries (Triangular format: symmetric reading also accepted); mp::Problem/NL reader are the observation channel (monitored separately by C02/C03)', '2/C08'),
     'C03': ('exploration', 'round-trip monitoring: real NLWriter2 -> real NL reader with the recording checker handler and a canonical-event equality oracle, under ASan',
             'Random model descriptions over every opcode, bound kind, suffix kind and adversarial doubles are fed through an NLFeeder to WriteNLFile in all 24 option/format combinations and each file is read back by ReadNLFile; the recorded notifications must equal the fed model item by item with bit-identical numbers, and all encodings of one model must be indistinguishable.',
             'operator identity is matched by name between nl-opcodes.h and expr::Kind; |bound| >= DBL_MAX is treated as the writer\'s documented infinity', '2/C03'),
